@@ -1,7 +1,7 @@
 #!/venv/bin/python
 """Regenerate MANIFEST.json from the rule registry and sa/propdoc.py."""
 import json, sys, os
-sys.path.insert(0, os.path.dirname(os.path.abspath(__file__)))
+sys.path.insert(0, os.path.dirname(os.path.dirname(os.path.abspath(__file__)))); os.chdir(os.path.dirname(os.path.dirname(os.path.abspath(__file__))))
 from sa import registry
 from sa.propdoc import PROPDOC
 registry.load_rules()
